@@ -68,6 +68,10 @@ class Lane:
     def __init__(self, tag):
         self.tag = tag
         self.suts = {}
+        self.deadline = None      # wall-clock end of the batch; long enumerations inside one scenario stop there
+
+    def expired(self):
+        return self.deadline is not None and time.time() > self.deadline
 
     def sut(self, hashseed=0):
         s = self.suts.get(hashseed)
@@ -370,7 +374,9 @@ def lane_main(args):
                 spec["hashseed"] = hashseed_of(seed)
                 spec["seed"] = seed
                 spec["idx"] = i
+                lane.deadline = t_end + 5
                 out = prop.check(lane, spec)
+                lane.deadline = None
             except SUT.HarnessError as e:
                 agg["harness_errors"].append("idx %d seed %d: %s" % (i, seed, str(e)[:500]))
                 lane.close()
@@ -408,6 +414,7 @@ def lane_main(args):
                     reported.add(v.key())
                     continue
                 try:
+                    lane.deadline = None
                     tr = triage(prop, lane, spec, v, findings, args.get("min_budget", 60))
                 except SUT.HarnessError as e:
                     agg["harness_errors"].append("triage idx %d: %s" % (i, str(e)[:500]))
@@ -534,7 +541,7 @@ def run_batch(pid, tier, batch_seed, nlanes=None, budget_s=None, count=None):
         procs.append((L, p, a))
     lane_out = []
     harness_errors = []
-    hard = budget_s + plan.get("min_budget", 45) * plan.get("max_triage", 3) + 300
+    hard = budget_s + 3 * plan.get("min_budget", 45) * plan.get("max_triage", 3) + 900
     for L, p, a in procs:
         try:
             so, _ = p.communicate(timeout=max(10, t0 + hard - time.time()))
